@@ -417,6 +417,8 @@ type World struct {
 	active rhp4.ContractRevision
 	// relation currently arranged between the renter's and the host's chain
 	relation string
+	// the host's wallet was shut down by a collaborator fault: the world is used up
+	hostWalletClosed bool
 	// the active contract's formation set while it is deliberately kept unconfirmed (pv "noelem")
 	held *rhp4.TransactionSet
 	closers []func()
